@@ -214,9 +214,17 @@ def cmd_check(prop, tier, base_seed, workers, no_selftest=False, limit=None):
         'wall_s': round(wall, 2),
         'violations': len(reported),
     }
-    cov_extra = spec.get('coverage_extra')
-    if cov_extra:
-        evidence['coverage'].update(cov_extra(agg))
+    if agg.get('sweep_bases'):
+        evidence['coverage'].update({
+            'sweep_base_plans': agg['sweep_bases'],
+            'fault_points_enumerated': agg['sweep_points_run'],
+            'fault_points_in_base_plans': agg['sweep_points_total'],
+            'sweep_base_plans_fully_enumerated': agg['sweep_bases_exhaustive'],
+            'sweep_note': ('each base plan is executed fault-free once; then once per fault point (every byte offset x mode x '
+                           'direction and every loop iteration for close(), or every loop iteration of the targeted interaction '
+                           'for cancel()); above the per-base cap the points are stride-subsampled, so the enumeration is '
+                           'exhaustive only for the base plans counted in sweep_base_plans_fully_enumerated'),
+        })
     os.makedirs(os.path.join(OUT, 'evidence'), exist_ok=True)
     with open(os.path.join(OUT, 'evidence', prop + '.json'), 'w') as f:
         json.dump(evidence, f, indent=1, sort_keys=True, default=repr)
